@@ -280,11 +280,39 @@ func VerifInstallReadCipher(c *Conn, id uint16, key, iv, macKey []byte, epoch ui
 	c.readEpoch = epoch
 }
 
-// VerifWriteRecord seals data as record(s) of an arbitrary content type with the connection's
-// current write protection and sends them (a peer that completed the handshake and then
-// misbehaves).
+// VerifWriteRecord seals data (possibly empty, at most maxPlaintext bytes) as ONE record of an
+// arbitrary content type with the connection's current write protection and sends it (a peer
+// that completed the handshake and then misbehaves). It follows writeRecordLocked.
 func VerifWriteRecord(c *Conn, typ byte, data []byte) (int, error) {
 	c.out.Lock()
 	defer c.out.Unlock()
-	return c.writeRecordLocked(recordType(typ), data)
+	vers := c.vers
+	if vers == 0 {
+		vers = VersionTLCP
+	}
+	m := len(data)
+	c.setWriteSeq()
+	outBuf := make([]byte, recordHeaderLen, recordHeaderLen+m+64)
+	outBuf[0] = typ
+	outBuf[1], outBuf[2] = byte(vers>>8), byte(vers)
+	outBuf[3], outBuf[4] = byte(c.writeEpoch>>8), byte(c.writeEpoch)
+	outBuf[5], outBuf[6], outBuf[7] = byte(c.writeSeq>>40), byte(c.writeSeq>>32), byte(c.writeSeq>>24)
+	outBuf[8], outBuf[9], outBuf[10] = byte(c.writeSeq>>16), byte(c.writeSeq>>8), byte(c.writeSeq)
+	outBuf[11], outBuf[12] = byte(m>>8), byte(m)
+	outBuf, err := c.out.encrypt(outBuf, data, c.config.rand())
+	if err != nil {
+		return 0, err
+	}
+	if encLen := len(outBuf) - recordHeaderLen; encLen != m {
+		outBuf[11], outBuf[12] = byte(encLen>>8), byte(encLen)
+	}
+	c.writeSeq++
+	return c.write(outBuf)
+}
+
+// VerifPrepareReadCipher prepares the next read protection of a raw connection as
+// establishKeys does, so that a ChangeCipherSpec can be accepted.
+func VerifPrepareReadCipher(c *Conn, id uint16, key, iv, macKey []byte) {
+	v := VerifNewHalfConn(id, key, iv, macKey, true)
+	c.in.prepareCipherSpec(VersionTLCP, v.hc.cipher, v.hc.mac)
 }
